@@ -1436,8 +1436,19 @@ int32 matrixUpdateSession(ssl_t *ssl)
     }
     if (ssl->flags & SSL_FLAGS_ERROR)
     {
+        /* Invalidate, as matrixClearSession does: no other connection of
+           this session may bring the entry back. Always preserve the
+           first bytes of the id for chronList */
+        Memset(g_sessionTable[i].id + 4, 0x0, SSL_MAX_SESSION_ID_SIZE - 4);
         Memset(g_sessionTable[i].masterSecret, 0x0, SSL_HS_MASTER_SIZE);
         g_sessionTable[i].cipher = NULL;
+        psUnlockMutex(&g_sessionTableLock);
+        return PS_FAILURE;
+    }
+    if (Memcmp(g_sessionTable[i].id, id, SSL_MAX_SESSION_ID_SIZE) != 0)
+    {
+        /* The entry has been invalidated (or re-used) since this connection
+           registered or resumed it: do not write our secret into it */
         psUnlockMutex(&g_sessionTableLock);
         return PS_FAILURE;
     }
